@@ -127,6 +127,9 @@ def run_c01(desc, R, rng):
     for i in range(desc["layouts"]):
         L = gen_layout(rng, desc["mix"])
         td = tagdesc(L)
+        if L.hdr_declared_on_header:
+            R.count("t1t_c01_layouts_outside_quantifier_skipped")     # a declared range on the NDEF TLV's length field
+            continue
         if L.hdr_straddle:
             R.count("t1t_c01_layouts_header_across_reserved_blocks")
         if i < desc.get("all_lengths", 0) and not L.dynamic:
@@ -454,6 +457,9 @@ def run_c03(desc, R, rng):
     for i in range(desc["layouts"]):
         L = gen_layout(rng, desc["mix"])
         td = tagdesc(L)
+        if L.hdr_declared_on_header:
+            R.count("t1t_c03_layouts_outside_quantifier_skipped")     # a declared range on the NDEF TLV's length field
+            continue
         if L.hdr_straddle:
             R.count("t1t_c03_layouts_header_across_reserved_blocks")
         cap = L.capacity
